@@ -104,6 +104,9 @@ type e7ctx struct {
 	bind   map[ssa.Value]*e7node
 	nodes  map[ssa.Value]*e7node
 	kids   map[ssa.CallInstruction]*e7ctx
+	alts   map[e7altKey]*e7ctx
+	fvSrc  map[*ssa.FreeVar]ssa.Value // what the parent context bound the closure's free variables to
+	multi  map[ssa.CallInstruction]map[int]*e7node
 	raws   map[*ssa.BasicBlock][]e7raw
 	siteG  []e7guard
 	rets   map[int]*e7node
@@ -213,7 +216,7 @@ func e7isChan(t types.Type) bool {
 
 func (u *e7universe) rootCtx(fn *ssa.Function) *e7ctx {
 	return &e7ctx{u: u, fn: fn, bind: map[ssa.Value]*e7node{}, nodes: map[ssa.Value]*e7node{},
-		kids: map[ssa.CallInstruction]*e7ctx{}, raws: map[*ssa.BasicBlock][]e7raw{}, rets: map[int]*e7node{}}
+		kids: map[ssa.CallInstruction]*e7ctx{}, alts: map[e7altKey]*e7ctx{}, fvSrc: map[*ssa.FreeVar]ssa.Value{}, multi: map[ssa.CallInstruction]map[int]*e7node{}, raws: map[*ssa.BasicBlock][]e7raw{}, rets: map[int]*e7node{}}
 }
 
 func (c *e7ctx) inChain(fn *ssa.Function) bool {
@@ -255,6 +258,148 @@ func (c *e7ctx) inlineTarget(ci ssa.CallInstruction) *ssa.Function {
 	return callee
 }
 
+// ---------- a call of a function value chosen among several closures ----------
+
+type e7altKey struct {
+	ci   ssa.CallInstruction
+	edge int
+}
+
+type e7target struct {
+	callee *ssa.Function
+	args   []ssa.Value
+	mc     *ssa.MakeClosure // supplies the free variables of callee; nil for a bound method
+	edge   int
+}
+
+// e7boundMethod: the method a bound-method wrapper (`x.m` used as a value) calls.
+func e7boundMethod(fn *ssa.Function) *ssa.Function {
+	if !strings.HasPrefix(fn.Synthetic, "bound method wrapper") {
+		return nil
+	}
+	var m *ssa.Function
+	for _, b := range fn.Blocks {
+		for _, ins := range b.Instrs {
+			if ci, ok := ins.(ssa.CallInstruction); ok {
+				if m != nil {
+					return nil
+				}
+				m = ci.Common().StaticCallee()
+			}
+		}
+	}
+	return m
+}
+
+// multiTargets: `f := x.m; if c { f = func() T { ... } }; ... f()`: the callee is a phi of closures. Every closure is
+// expanded; the result is the merge of their results under the conditions of the phi's edges, the facts of each
+// expansion hold under those conditions too. Nothing is returned unless every edge is a closure that can be expanded.
+func (c *e7ctx) multiTargets(ci ssa.CallInstruction) (*ssa.Phi, []e7target) {
+	common := ci.Common()
+	if common.IsInvoke() || c.depth >= c.u.opts.MaxDepth {
+		return nil, nil
+	}
+	phi, ok := common.Value.(*ssa.Phi)
+	if !ok {
+		return nil, nil
+	}
+	var out []e7target
+	for i, e := range phi.Edges {
+		mc, ok := e.(*ssa.MakeClosure)
+		if !ok {
+			return nil, nil
+		}
+		fn, _ := mc.Fn.(*ssa.Function)
+		if fn == nil {
+			return nil, nil
+		}
+		t := e7target{callee: fn, args: common.Args, mc: mc, edge: i}
+		if !c.u.w.InModule(fn) {
+			m := e7boundMethod(fn)
+			if m == nil || len(mc.Bindings) != 1 || !c.u.w.InModule(m) || !c.u.inl[m] {
+				return nil, nil
+			}
+			t = e7target{callee: m, args: append([]ssa.Value{mc.Bindings[0]}, common.Args...), edge: i}
+		}
+		if t.callee.Blocks == nil || c.inChain(t.callee) || len(t.callee.Params) != len(t.args) {
+			return nil, nil
+		}
+		out = append(out, t)
+	}
+	if len(out) < 2 {
+		return nil, nil
+	}
+	return phi, out
+}
+
+// edgeGate: the conditions under which the phi takes its i-th edge, beyond those of the phi's own block.
+func (c *e7ctx) edgeGate(phi *ssa.Phi, i int) []e7raw {
+	rb := c.rawGuards(phi.Block())
+	var gate []e7raw
+	for _, g := range c.edgeRaw(phi.Block(), i) {
+		dup := false
+		for _, h := range rb {
+			if h == g {
+				dup = true
+			}
+		}
+		if !dup {
+			gate = append(gate, g)
+		}
+	}
+	return gate
+}
+
+func (c *e7ctx) altChild(ci ssa.CallInstruction, phi *ssa.Phi, t e7target) *e7ctx {
+	key := e7altKey{ci, t.edge}
+	if k, ok := c.alts[key]; ok {
+		return k
+	}
+	k := c.u.rootCtx(t.callee)
+	k.parent, k.site, k.depth = c, ci, c.depth+1
+	name := c.u.w.FuncName(t.callee)
+	if t.callee.Parent() != nil {
+		name = "closure in " + c.u.w.FuncName(t.callee.Parent())
+	}
+	k.via = append(append([]string{}, c.via...), name)
+	k.site0 = c.site0
+	if c.depth == 0 {
+		k.site0 = c.u.w.InstrPos(ci)
+	}
+	c.alts[key] = k
+	for i, p := range t.callee.Params {
+		k.bind[p] = c.val(t.args[i])
+	}
+	if t.mc != nil {
+		for i, fv := range t.callee.FreeVars {
+			if i < len(t.mc.Bindings) {
+				k.bind[fv] = c.val(t.mc.Bindings[i])
+				k.fvSrc[fv] = t.mc.Bindings[i]
+			}
+		}
+	}
+	k.siteG = append(c.guardsOf(ci.Block()), c.convert(c.edgeGate(phi, t.edge))...)
+	return k
+}
+
+// multiResult: the idx-th result of a call with several targets.
+func (c *e7ctx) multiResult(ci ssa.CallInstruction, phi *ssa.Phi, ts []e7target, idx int) *e7node {
+	if m := c.multi[ci]; m != nil {
+		if n, ok := m[idx]; ok {
+			return n
+		}
+	} else {
+		c.multi[ci] = map[int]*e7node{}
+	}
+	n := c.u.newNode("phi", "phi", "call("+phi.Comment+")", e7Set)
+	n.phiLike = true
+	c.multi[ci][idx] = n
+	for _, t := range ts {
+		n.edges = append(n.edges, e7edge{"", c.caseNode(c.altChild(ci, phi, t).result(idx), c.gateOf(c.edgeGate(phi, t.edge)))})
+	}
+	return n
+}
+
 func (c *e7ctx) child(ci ssa.CallInstruction, callee *ssa.Function) *e7ctx {
 	if k, ok := c.kids[ci]; ok {
 		return k
@@ -279,6 +424,7 @@ func (c *e7ctx) child(ci ssa.CallInstruction, callee *ssa.Function) *e7ctx {
 		for i, fv := range callee.FreeVars {
 			if i < len(mc.Bindings) {
 				k.bind[fv] = c.val(mc.Bindings[i])
+				k.fvSrc[fv] = mc.Bindings[i]
 			}
 		}
 	}
@@ -709,6 +855,14 @@ func (c *e7ctx) build(v ssa.Value) *e7node {
 		case token.ARROW:
 			return u.leaf("IN:"+e7type(x.Type()), "<-chan:"+e7type(x.Type()))
 		case token.MUL:
+			// inside a closure: a captured cell of the enclosing function that is written once holds that value
+			if fv, ok := x.X.(*ssa.FreeVar); ok && c.parent != nil {
+				if al, ok := c.fvSrc[fv].(*ssa.Alloc); ok {
+					if sv := e7singleStore(al); sv != nil {
+						return c.parent.val(sv)
+					}
+				}
+			}
 			if al, ok := x.X.(*ssa.Alloc); ok {
 				if vals, simple := e7cellStores(al); simple && len(vals) > 0 {
 					if len(vals) == 1 {
@@ -769,6 +923,9 @@ func (c *e7ctx) build(v ssa.Value) *e7node {
 		if call, ok := x.Tuple.(*ssa.Call); ok {
 			if callee := c.inlineTarget(call); callee != nil {
 				return c.child(call, callee).result(x.Index)
+			}
+			if phi, ts := c.multiTargets(call); ts != nil {
+				return c.multiResult(call, phi, ts, x.Index)
 			}
 		}
 		t := c.val(x.Tuple)
@@ -1069,6 +1226,9 @@ func (c *e7ctx) callValue(x *ssa.Call) *e7node {
 	if callee := c.inlineTarget(x); callee != nil {
 		return c.child(x, callee).result(0)
 	}
+	if phi, ts := c.multiTargets(x); ts != nil {
+		return c.multiResult(x, phi, ts, 0)
+	}
 	if f := common.StaticCallee(); f != nil && e7inputPkg(f) {
 		return c.u.leaf("IN:"+e7type(x.Type()), "input:"+e7type(x.Type()))
 	}
@@ -1215,6 +1375,12 @@ func (c *e7ctx) collect(side int, out *[]*e7fact) {
 				}
 				if callee := c.inlineTarget(x); callee != nil {
 					c.child(x, callee).collect(side, out)
+					continue
+				}
+				if phi, ts := c.multiTargets(x); ts != nil {
+					for _, t := range ts {
+						c.altChild(x, phi, t).collect(side, out)
+					}
 					continue
 				}
 				name := u.calleeName(common)
